@@ -68,6 +68,7 @@ const (
 	xEmptyAlloc              // lock: empty allocation id
 	xOwnerChange             // update: change owner to C
 	xMalformed               // undecodable input
+	xForgeKey                // read marker naming client C but carrying and signed with a foreign key
 )
 
 type BlobSpec struct {
